@@ -143,6 +143,9 @@ def cases(shard, nshards, seed, tier):
             continue
         if mine():
             yield {"family": "hostile", "name": name, "n": n, "pairs": pairs}
+    name, n, pairs = gen2d.thousand_stems()
+    if mine():
+        yield {"family": "hostile", "name": name, "n": n, "pairs": pairs}
     nrand = 1500 if tier == "quick" else 30000
     for i in range(nrand):
         if not mine():
@@ -165,6 +168,12 @@ def cases(shard, nshards, seed, tier):
             for beh in ("raise", "notsolved", "infeasible"):
                 if mine():
                     yield {"family": "fault-then-healthy", "n": n, "pairs": pairs, "behaviour": beh}
+    # the largest legal number of levels: 30 mutually crossing stems of different lengths through the MILP path.
+    # Plain CBC does not finish on this model (30 x 30 binaries, 13 050 pairwise rows); it is given the implied
+    # clique rows (sum over a set of mutually exclusive binaries <= 1), which change neither feasibility nor optimum
+    for t in range(1 if tier == "quick" else 3):
+        if mine():
+            yield {"family": "thirty-levels", "t": t}
     if tier == "thorough" and mine():
         yield {"family": "corpus-bpseq", "file": "tests/6EK0-L5-L8.bpseq"}
 
@@ -183,6 +192,8 @@ def run_case(case, rec):
         except Exception:
             pass
         return
+    if case["family"] == "thirty-levels":
+        return _thirty(case, rec)
     n, pairs = case["n"], [tuple(p) for p in case["pairs"]]
     if case["family"] == "fault-then-healthy":
         from vmon.props import c13
@@ -260,6 +271,76 @@ def _other_routes(n, pairs, f, rec):
         judge("dot_bracket of BpSeq.from_string(text)", snap, b.dot_bracket, None)
     except Exception:
         pass
+
+
+def _clique_cbc():
+    import itertools
+
+    import pulp
+
+    class CliqueCBC(pulp.PULP_CBC_CMD):
+        """CBC given, next to the model's rows x + y <= 1, the implied row sum(clique) <= 1 for greedily grown
+        cliques of mutually exclusive binaries."""
+
+        def actualSolve(self, lp, **kwargs):
+            adj, var = {}, {}
+            for row in list(lp.constraints.values()):
+                if row.sense == pulp.LpConstraintLE and len(row) == 2 and row.constant == -1 and all(c == 1 for c in row.values()):
+                    a, b = row.keys()
+                    adj.setdefault(a.name, set()).add(b.name)
+                    adj.setdefault(b.name, set()).add(a.name)
+                    var[a.name], var[b.name] = a, b
+            covered, count = set(), 0
+            for a in sorted(adj):
+                for b in sorted(adj[a]):
+                    if a > b or (a, b) in covered:
+                        continue
+                    cl = [a, b]
+                    for c in sorted(adj[a] & adj[b]):
+                        if all(c in adj[d] for d in cl):
+                            cl.append(c)
+                    covered.update(itertools.permutations(cl, 2))
+                    if len(cl) > 2:
+                        lp += pulp.lpSum(var[v] for v in cl) <= 1, f"vmon_clique_{count}"
+                        count += 1
+            return super().actualSolve(lp, **kwargs)
+
+    return CliqueCBC(msg=False)
+
+
+def _thirty(case, rec):
+    import pulp
+
+    rng = random.Random(f"C02:thirty:{case['t']}")
+    k = 30
+    lens = [rng.randint(1, 4) for _ in range(k)]
+    # stem i opens before stem i+1 and closes before it: all stems cross each other
+    pos, opens = 1, []
+    for L in lens:
+        opens.append(pos)
+        pos += L + 1
+    pairs = []
+    for i, L in enumerate(lens):
+        close = pos
+        for q in range(L):
+            pairs.append((opens[i] + q, close + L - 1 - q))
+        pos += L + 1
+    n = pos
+    rec.mark_nontrivial(True)
+    solver = _clique_cbc()
+    b = mon2d.make_bpseq(n, sorted(pairs))
+    try:
+        b.convert_to_dot_bracket(solver)
+    except Exception:
+        pass
+    saved = pulp.LpSolverDefault
+    pulp.LpSolverDefault = _clique_cbc()
+    try:
+        mon2d.make_bpseq(n, sorted(pairs)).dot_bracket
+    except Exception:
+        pass
+    finally:
+        pulp.LpSolverDefault = saved
 
 
 def chash_bit(case):
